@@ -316,6 +316,14 @@ def c09 (v : StepView) : Verdict :=
 
 /-! ### C03 -/
 
+/-- C10, kernel side: a mount or unmount call the kernel refuses (nothing injected) is an
+    operation that failed; the command must not report success -/
+def c10sys (v : StepView) : Verdict :=
+  if !plain v || clsOf v != "ok" then fine [] else
+  match (replaySys v.pre.mnts (sysOf v)).1 with
+  | some (_, s, _) => bad ("the kernel refused the " ++ s.kind ++ " of " ++ showB s.tgt ++ " but the command reported success")
+  | none => fine []
+
 def c03 (v : StepView) : Verdict :=
   if cmdOf v.step != "umount" || !plain v then fine [] else
   let ls := diskLayers v.pre
@@ -340,6 +348,12 @@ def c03 (v : StepView) : Verdict :=
     else if (hiddenAbort v scope).isSome then
       bad ("umount of an idle layer fails at " ++ showB s.tgt ++
         ": the unmount order meets a submount hidden below a mount stacked on its ancestor, although unmounting along the mount tree (latest mount first) would succeed")
+    else if (replaySys v.pre.mnts sys).2.mnts.any (·.mp == s.tgt) then
+      -- the target is a mountpoint of the table but out of reach (covered by a mount that does
+      -- not belong to the addressed layers, e.g. one made by hand on the layer directory): no
+      -- order of unmount calls can succeed; the command must say that it failed
+      if clsOf v == "ok" then bad ("umount reported success although the unmount of " ++ showB s.tgt ++ " was refused")
+      else fine ["c03:covered-from-outside"]
     else bad ("unmount of " ++ showB s.tgt ++ " which is not a mountpoint")
   | none =>
     -- derived layers before the layers they sit on
